@@ -445,13 +445,24 @@ impl Worterbuch {
         client_id: ClientId,
     ) -> WorterbuchResult<()> {
         if let Some(key) = self.lookup_key(client_id, transaction_id) {
-            self.publish(key, value).await
+            // the key has been checked against the client's ID by spub_init
+            self.do_publish(key, value).await
         } else {
             Err(WorterbuchError::NoPubStream(transaction_id))
         }
     }
 
     pub async fn publish(&mut self, key: Key, value: Value) -> WorterbuchResult<()> {
+        if key.split('/').next() == Some(SYSTEM_TOPIC_ROOT) {
+            // a publish request does not carry a client ID, so no key below $SYS can be
+            // known to be the caller's own: subscribers of $SYS only ever see what the server set
+            return Err(WorterbuchError::ReadOnlyKey(key));
+        }
+
+        self.do_publish(key, value).await
+    }
+
+    async fn do_publish(&mut self, key: Key, value: Value) -> WorterbuchResult<()> {
         let path: Vec<RegularKeySegment> = parse_segments(&key)?;
 
         self.notify_subscribers(&path, &key, &value, true, false)
